@@ -34,6 +34,8 @@ def core_constants(cfg, special=(), raisers=()):
         'QueueSize = %d' % cfg.get('queue', 100000),
         'SpecialCids = %s' % tla_set(sorted(special)),
         'Raisers = %s' % tla_set(sorted(raisers)),
+        'Journal = %s' % tla_bool(cfg.get('journal', False)),
+        'DumpFile = %s' % tla_bool(cfg.get('dump', False)),
         'InitConnected = %s' % tla_bool(cfg.get('init_connected', False)),
         'Isolated0 = %s' % tla_set(cfg.get('isolated0', [])),
         'Membership = %s' % tla_bool(cfg.get('membership', False)),
